@@ -270,8 +270,9 @@ func apply(a arrays.Array2D[int], g grid, w, h int, o op, val int) (sig, msg str
 	if d := diff(a, g, w, h); d != "" {
 		return o.name + "|frame", fmt.Sprintf("after %v on %dx%d: %s", o, w, h, d)
 	}
-	if s, ws := a.String(), str(g); s != ws {
-		return "String", fmt.Sprintf("String() = %q, want %q", s, ws)
+	// no format is promised: the rendering must name exactly the cells (labels are distinct)
+	if s := a.String(); !enum.SameMultiset(enum.IntTokens(s), enum.IntTokens(str(g))) {
+		return "String", fmt.Sprintf("String() = %q, cells %q", s, str(g))
 	}
 	return "", ""
 }
@@ -320,9 +321,14 @@ func typedGrids[T any](tname string, mk func(i int) T, same func(a, b T) bool) {
 							}
 						}
 					}
-					if got, want := a.String(), render(g); got != want {
-						e.Fail("String", rp, "Array2D[%s] %dx%d %s: String() = %q, want %q (every cell rendered by fmt.Sprint)", tname, w, h, what, got, want)
-						return false
+					got := a.String()
+					for y := range g {
+						for _, c := range g[y] {
+							if r := fmt.Sprint(c); !strings.Contains(got, r) {
+								e.Fail("String", rp, "Array2D[%s] %dx%d %s: String() = %q does not contain the cell %q (cells: %s)", tname, w, h, what, got, r, render(g))
+								return false
+							}
+						}
 					}
 					return true
 				}
